@@ -151,7 +151,8 @@ static void hh_run(const plan *p)
         if (pis(l, "ENQ")) {
             if (nlive >= MAXLIVE - 1) continue;
             uint64_t key = 0;
-            if (sel > 0) { key = pal[sel % NPAL]; if (find_live(key) >= 0) continue; }
+            if (sel > 0 && sel <= 1000) { key = pal[sel % NPAL]; if (find_live(key) >= 0) continue; }
+            else if (sel > 1000) { key = 1 + (sel % 48); if (find_live(key) >= 0) continue; PROBE("hh.small_caller_key"); }   /* caller keys in the range the automatic keys run through */
             ment m; memset(&m, 0, sizeof m);
             m.d = (double)(pa(l, 1) % 5) / 2.0; m.i = prio_of(pa(l, 2));
             m.pay[0] = pv(pa(l, 3) < 0 ? 0 : pa(l, 3) % 3); m.pay[1] = pv(pa(l, 4) < 0 ? 0 : pa(l, 4) % 3);
@@ -275,6 +276,7 @@ static void hh_gen(plan *p, uint64_t seed, const char *cfg)
         if (k < enq_w + 20) {
             int64_t ks = 0;
             if (keymode == 1 || (keymode == 2 && vrng_chance(&r, 1, 2))) ks = 1 + (int64_t)vrng_below(&r, NPAL);
+            if (keymode == 2 && ks != 0 && vrng_chance(&r, 1, 3)) ks = 1001 + (int64_t)vrng_below(&r, 48);
             plan_add(p, "ENQ", 6, ks, (int64_t)vrng_below(&r, 5), pr, (int64_t)vrng_below(&r, 3), (int64_t)vrng_below(&r, 3), (int64_t)vrng_below(&r, 2));
             used++;
         }
